@@ -244,3 +244,129 @@ Section Inv.
     - exists st1, f1. auto.
   Qed.
 End Inv.
+
+(* ---------------------------------------------------------------- subgraphs(): the groups tile the
+   global order, each is exactly one class of the partition *)
+Lemma In_firstn_nth {A} (x : A) : forall l o, In x (firstn l o) <-> exists k, (k < l)%nat /\ nth_error o k = Some x.
+Proof.
+  induction l as [|l IH]; intro o; simpl.
+  - split; [intros []|intros (k & H & _); lia].
+  - destruct o as [|a o]; simpl.
+    + split; [intros []|intros (k & _ & H); destruct k; discriminate].
+    + rewrite IH. split.
+      * intros [->|(k & Hk & Hn)]; [exists O; split; [lia|reflexivity]|exists (S k); split; [lia|exact Hn]].
+      * intros (k & Hk & Hn). destruct k as [|k]; simpl in Hn; [left; congruence|right; exists k; split; [lia|exact Hn]].
+Qed.
+
+Lemma nth_error_skipn' {A} : forall i (o : list A) k, nth_error (skipn i o) k = nth_error o (i + k).
+Proof.
+  induction i as [|i IH]; intros o k; simpl; [reflexivity|].
+  destruct o as [|a o]; simpl; [destruct k; reflexivity|apply IH].
+Qed.
+
+Lemma In_slice_nth {A} (x : A) o i l :
+  In x (slice o i l) <-> exists j, (i <= j < i + l)%nat /\ nth_error o j = Some x.
+Proof.
+  unfold slice. rewrite In_firstn_nth. split.
+  - intros (k & Hk & Hn). rewrite nth_error_skipn' in Hn. exists (i + k)%nat. split; [lia|exact Hn].
+  - intros (j & Hj & Hn). exists (j - i)%nat. split; [lia|]. rewrite nth_error_skipn'.
+    replace (i + (j - i))%nat with j by lia. exact Hn.
+Qed.
+
+Lemma skipn_add {A} : forall i l (o : list A), skipn l (skipn i o) = skipn (i + l) o.
+Proof.
+  induction i as [|i IH]; intros l o; simpl; [reflexivity|].
+  destruct o as [|a o]; simpl; [destruct l; reflexivity|apply IH].
+Qed.
+
+Section Subgraphs.
+  Variables (ks : list N) (np : N -> list N) (en : list (N * N)) (s : sm) (f : N -> N).
+  Hypothesis I : SMInv ks np en s f.
+
+  Definition is_class (grp : list N) : Prop :=
+    grp <> [] /\ exists r, In r ks /\ f r = r /\ forall x, In x grp <-> (In x ks /\ f x = r).
+
+  Definition start (i : nat) : Prop :=
+    i = length (sm_order s) \/ exists r, alookup r (sm_idx s) = Some i.
+
+  Lemma order_in_ks x : In x (sm_order s) -> In x ks.
+  Proof. intro H. eapply Permutation_in; [exact (inv_perm _ _ _ _ _ I)|exact H]. Qed.
+
+  Lemma start_next r i l :
+    alookup r (sm_idx s) = Some i -> alookup r (sm_len s) = Some l ->
+    start (i + l).
+  Proof.
+    intros Hi Hl.
+    destruct (inv_group _ _ _ _ _ I r i Hi) as (Fr & Kr & l0 & Hl0 & L1 & L2 & Hn & Hm).
+    rewrite Hl in Hl0. injection Hl0 as <-.
+    destruct (Nat.eq_dec (i + l) (length (sm_order s))) as [E|E]; [left; exact E|]. right.
+    assert (Hlt : (i + l < length (sm_order s))%nat) by lia.
+    destruct (nth_error (sm_order s) (i + l)) as [n'|] eqn:Hn'; [|apply nth_error_None in Hn'; lia].
+    assert (Kn : In n' ks) by (apply order_in_ks; eapply nth_error_In; exact Hn').
+    set (r' := f n').
+    assert (Kr' : In r' ks) by (apply (inv_f_keys _ _ _ _ _ I); exact Kn).
+    assert (Fr' : f r' = r') by (unfold r'; eapply UFInv_idem; exact (inv_uf _ _ _ _ _ I)).
+    destruct (alookup r' (sm_idx s)) as [i'|] eqn:Hi'; [|exfalso; exact (inv_group_total _ _ _ _ _ I r' Kr' Fr' Hi')].
+    destruct (inv_group _ _ _ _ _ I r' i' Hi') as (_ & _ & l' & Hl' & L1' & L2' & Hnr' & Hm').
+    assert (Hin : In n' (slice (sm_order s) i' l')) by (apply Hm'; split; [exact Kn|reflexivity]).
+    apply In_slice_nth in Hin. destruct Hin as (j & Hj & Hnj).
+    assert (j = (i + l)%nat).
+    { apply (proj1 (NoDup_nth_error (sm_order s)) (inv_nodup _ _ _ _ _ I) j (i + l)%nat);
+        [apply nth_error_Some; congruence|congruence]. }
+    subst j. exists r'.
+    destruct (Nat.eq_dec i' (i + l)) as [E'|E']; [rewrite <- E'; exact Hi'|]. exfalso.
+    (* then position i+l-1 lies in both ranges *)
+    assert (Hp : (i' <= i + l - 1 < i' + l')%nat) by lia.
+    destruct (nth_error (sm_order s) (i + l - 1)) as [m|] eqn:Hm1; [|apply nth_error_None in Hm1; lia].
+    assert (M1 : In m (slice (sm_order s) i l)) by (apply In_slice_nth; exists (i + l - 1)%nat; split; [lia|exact Hm1]).
+    assert (M2 : In m (slice (sm_order s) i' l')) by (apply In_slice_nth; exists (i + l - 1)%nat; split; [lia|exact Hm1]).
+    apply Hm in M1. apply Hm' in M2. destruct M1 as [_ M1]. destruct M2 as [_ M2].
+    assert (r = r') by congruence. subst r'. rewrite <- H in Hi'. rewrite Hi in Hi'. injection Hi' as <-.
+    rewrite <- H in Hl'. rewrite Hl in Hl'. injection Hl' as <-. lia.
+  Qed.
+
+  Lemma subgraphs_from_spec : forall fuel i,
+    (length (sm_order s) - i < fuel)%nat -> (i <= length (sm_order s))%nat -> start i ->
+    exists groups, sm_subgraphs_from fuel s i = ROk groups /\
+      concat groups = skipn i (sm_order s) /\ Forall is_class groups.
+  Proof.
+    induction fuel as [|fu IH]; intros i Hf Hi St; [lia|]. cbn [sm_subgraphs_from].
+    destruct St as [E|(r & Hr)].
+    - subst i. assert (Hn : nth_error (sm_order s) (length (sm_order s)) = None) by (apply nth_error_None; lia).
+      rewrite Hn, Nat.eqb_refl. exists []. split; [reflexivity|]. split; [|constructor].
+      simpl. symmetry. apply skipn_all.
+    - destruct (inv_group _ _ _ _ _ I r i Hr) as (Fr & Kr & l & Hl & L1 & L2 & Hn & Hm).
+      rewrite Hn. unfold aget. rewrite Hr. cbn [rbind]. rewrite Nat.eqb_refl. cbn [negb].
+      rewrite Hl. cbn [rbind].
+      assert (Hlt : Nat.ltb (length (sm_order s)) (i + l) = false) by (apply Nat.ltb_ge; lia).
+      rewrite Hlt.
+      destruct (IH (i + l)%nat ltac:(lia) ltac:(lia) (start_next r i l Hr Hl)) as (gs & Eg & Cg & Fg).
+      rewrite Eg. cbn [rbind]. exists (slice (sm_order s) i l :: gs). split; [reflexivity|]. split.
+      + simpl. rewrite Cg. unfold slice. rewrite <- skipn_add. apply firstn_skipn.
+      + constructor; [|exact Fg]. split.
+        * intro E. assert (In r (slice (sm_order s) i l)) by (apply Hm; auto). rewrite E in H. exact H.
+        * exists r. auto.
+  Qed.
+
+  Theorem sm_subgraphs_spec :
+    exists groups, sm_subgraphs s = ROk groups /\ concat groups = sm_order s /\ Forall is_class groups.
+  Proof.
+    unfold sm_subgraphs.
+    assert (St : start 0).
+    { destruct (sm_order s) as [|n o] eqn:Eo; [left; rewrite Eo; reflexivity|].
+      right. assert (Kn : In n ks) by (apply order_in_ks; rewrite Eo; left; reflexivity).
+      set (r := f n).
+      assert (Kr : In r ks) by (apply (inv_f_keys _ _ _ _ _ I); exact Kn).
+      assert (Fr : f r = r) by (unfold r; eapply UFInv_idem; exact (inv_uf _ _ _ _ _ I)).
+      destruct (alookup r (sm_idx s)) as [i|] eqn:Hi; [|exfalso; exact (inv_group_total _ _ _ _ _ I r Kr Fr Hi)].
+      destruct (inv_group _ _ _ _ _ I r i Hi) as (_ & _ & l & Hl & L1 & L2 & Hnr & Hm).
+      assert (Hin : In n (slice (sm_order s) i l)) by (apply Hm; split; [exact Kn|reflexivity]).
+      apply In_slice_nth in Hin. destruct Hin as (j & Hj & Hnj).
+      assert (j = O).
+      { apply (proj1 (NoDup_nth_error (sm_order s)) (inv_nodup _ _ _ _ _ I) j O);
+          [apply nth_error_Some; congruence|rewrite Hnj, Eo; reflexivity]. }
+      subst j. assert (i = O) by lia. subst i. exists r. exact Hi. }
+    destruct (subgraphs_from_spec (S (length (sm_order s))) O ltac:(lia) ltac:(lia) St) as (gs & E & C & F).
+    exists gs. split; [exact E|]. split; [exact C|exact F].
+  Qed.
+End Subgraphs.
